@@ -18,6 +18,7 @@ type PeerCfg struct {
 	MaxFrameSize    int64  `json:"max_frame_size"`    // -1: not sent (16384)
 	HeaderTableSize int64  `json:"header_table_size"` // -1: not sent (4096)
 	AutoWindow      bool   `json:"auto_window"`       // grant WINDOW_UPDATE for everything received, at once
+	DrainGrants     bool   `json:"drain_grants"`      // in the drain phase, grant whatever window is needed
 	ConnWindowBoost uint32 `json:"conn_window_boost"` // WINDOW_UPDATE(0) sent right after SETTINGS
 	LinkCap         int    `json:"link_cap"`          // capacity of each direction in bytes (0 = unbounded)
 }
@@ -62,6 +63,8 @@ type Op struct {
 	RawHex   string     `json:"raw_hex,omitempty"`
 	// StreamRef: which stream id the op is sent on. 0: the lane's own stream; >0: absolute id; -1: stream 0
 	StreamRef int `json:"stream_ref,omitempty"`
+	// LaneRef > 0: the op is sent on the stream of lane LaneRef-1 (enabled once that lane has a stream id)
+	LaneRef int `json:"lane_ref,omitempty"`
 	// TableSize >= 0: emit a dynamic table size update at the start of this block
 	TableSize int `json:"table_size"`
 }
